@@ -1,9 +1,9 @@
 package e3dial
 
 import (
-	"net"
 	"fmt"
 	"math/rand/v2"
+	"net"
 	"sort"
 	"strings"
 	"time"
